@@ -64,6 +64,37 @@ def main():
     res["detected"] = rc == 1
     sh("git checkout -q -- . ; git reset -q --hard; git clean -fdq pycaption tests", cwd=wt)
     print(json.dumps(res))
+    confirmed = (res["demo_clean_rc"] == 0 and res["tests_passed"] == 217
+                 and not res["tests_failed"] and res["demo_patched_rc"] != 0)
+    if "--keep" in sys.argv and confirmed:
+        import shutil
+        dst = os.path.join(VERIF, "seeded", res["seed"])
+        os.makedirs(dst, exist_ok=True)
+        for fn in ("patch.diff", "demo.py"):
+            shutil.copy(os.path.join(sd, fn), os.path.join(dst, fn))
+        try:
+            meta = json.load(open(os.path.join(sd, "meta.json")))
+        except Exception:  # noqa
+            meta = {}
+        old = {}
+        if os.path.exists(os.path.join(dst, "meta.json")):
+            old = json.load(open(os.path.join(dst, "meta.json")))
+        meta["breaks_property"] = meta.get("property", res["seed"][:3])
+        meta["confirmed_by_verif"] = {
+            "worktree": wt, "repo_head": head, "demo_on_clean_tree_rc": res["demo_clean_rc"],
+            "pinned_tests_passed_with_patch": res["tests_passed"],
+            "demo_with_patch_rc": res["demo_patched_rc"],
+            "procedure": "tools/seedtest.py: checkout /repo HEAD in scratch worktree, run demo, "
+                         "git apply patch, run pinned suite, run demo, run ./check with "
+                         "VERIF_REPO=<worktree>, revert",
+        }
+        runs = old.get("check_runs", {})
+        runs[f"{prop}:{tier}"] = {"exit": res["check_rc"], "detected": res["detected"],
+                                  "seconds": res["check_s"], "output": res["check_out"]}
+        meta["check_runs"] = runs
+        with open(os.path.join(dst, "meta.json"), "w") as f:
+            json.dump(meta, f, indent=1)
+            f.write("\n")
     return 0
 
 
